@@ -228,8 +228,10 @@ func Parse(src string, lookup Lookup) Result {
 			if ix := strings.IndexByte(val, '\r'); ix >= 0 && ix != len(val)-1 {
 				return outside("carriage return inside a line")
 			}
-			if len(val) > 0 && val[0] == '#' {
-				return outside("unquoted value starting with #")
+			if len(val) > 0 && val[0] == '#' && v != k+1 {
+				// blanks between the separator and the #: value or comment is not stated. Directly after the
+				// separator (KEY=#x) it is a value: only blank-then-# starts a comment
+				return outside("unquoted value starting with # after blanks")
 			}
 			if idx := strings.Index(val, " #"); idx >= 0 {
 				val = val[:idx]
